@@ -185,6 +185,31 @@ def h05c_shards(tier):
     return [{"types": types[i:i + 12], "_timeout": 600, "_path_timeout": 60} for i in range(0, len(types), 12)]
 
 
+GEN_TYPES = [("NS", "%s"), ("MX", "10 %s"), ("CNAME", "%s"), ("SRV", "1 2 3 %s"), ("SOA", "%s r.example. 1 2 3 4 5")]
+GEN_NAMES = ["mail.sub.example.", "other.example.", "sub.example.", "example.", "host.elsewhere."]
+GEN_ORIGINS = [None, "example.", "sub.example."]
+
+
+def h05c2(ti: int, ni: int, oi: int, ri: int, relativize: bool) -> bool:
+    """The generic form of a name-bearing known type means the same record as its ordinary text under every origin / relativize / relativize_to choice."""
+    tname, tmpl = GEN_TYPES[ti]
+    t = dns.rdatatype.from_text(tname)
+    origin = None if GEN_ORIGINS[oi] is None else dns.name.from_text(GEN_ORIGINS[oi])
+    rto = None if GEN_ORIGINS[ri] is None else dns.name.from_text(GEN_ORIGINS[ri])
+    text = tmpl % GEN_NAMES[ni]
+    absolute = dns.rdata.from_text(IN, t, text)
+    w = absolute.to_wire()
+    generic = "\\# %d %s" % (len(w), w.hex())
+    a = dns.rdata.from_text(IN, t, text, origin=origin, relativize=relativize, relativize_to=rto)
+    b = dns.rdata.from_text(IN, t, generic, origin=origin, relativize=relativize, relativize_to=rto)
+    hit("parsed")
+    return a == b and b.to_text() == a.to_text()
+
+
+def h05c2_pre(ti, ni, oi, ri, relativize):
+    return 0 <= ti < len(GEN_TYPES) and 0 <= ni < len(GEN_NAMES) and 0 <= oi < 3 and 0 <= ri < 3
+
+
 # ---------------------------------------------------------------- H05d numeric text tokens (LOC / GPOS / TTL-like units)
 
 NUM_POOL = ["0", "1", "-1", "0.5", "1.00", "90", "91", "180", "181", "59", "60", "59.999", "60.000", "9", "99999999", "90000000.00", "42849672.95",
@@ -253,6 +278,9 @@ HARNESSES = [
     Harness("H05c", h05c, h05c_pre, h05c_shards, kind="finite selection",
             encodes=["dns.rdata.Rdata.to_generic", "dns.rdata.GenericRdata.to_styled_text", "dns.rdata.from_text", "dns.rdata.GenericRdata.from_text"],
             bound="generic form of every type's specimen parsed as the known type; unknown type 65280 with 10 pooled data values", stubs=[], outside="symbolic data (hex conversion realizes)"),
+    Harness("H05c2", h05c2, h05c2_pre, lambda tier: [{"_timeout": 900, "_path_timeout": 60}], kind="finite selection, exhaustive",
+            encodes=["dns.rdata.from_text", "dns.rdata.GenericRdata.from_text", "dns.tokenizer.Tokenizer.as_name"],
+            bound="5 name-bearing types x 5 names x origin in {none, example., sub.example.} x relativize_to in the same set x relativize on/off", stubs=[], outside="other types"),
     Harness("H05d", h05d, h05d_pre, lambda tier: [{"type": "GPOS", "_timeout": 600}], kind="finite selection (float text)",
             encodes=["dns.rdtypes.ANY.LOC.LOC.from_text", "dns.rdtypes.ANY.LOC.LOC._to_wire", "dns.rdtypes.ANY.GPOS.GPOS.from_text"],
             bound="3 GPOS token positions x 34 numeric spellings (range boundaries, signs, exponents, malformed); LOC is the recorded finding F-C05-loc (witness replayed, not claimed)", stubs=[], outside="all other float values (floating point is outside this technique's reach); LOC numeric fields"),
